@@ -234,7 +234,11 @@ def run(ctx):
                       "status in ('open', 'closed', 'on hold', 'open')", "id in (3, 1, 2, 3, 1)", "f.g(zeta=1, alpha=2, mid=3, alpha2=4)",
                       "x in ('b', 'a', 'c', 'b', 'd', 'e', 'a')", "g in (01234567-89ab-cdef-0123-456789abcdef, 11234567-89ab-cdef-0123-456789abcdef, 01234567-89ab-cdef-0123-456789abcdef)",
                       "d in (2020-01-02, 2020-01-01, 2020-01-02)", "concat(concat(b, a), concat(a, b)) eq concat(a, a)",
-                      "a eq 1 or b eq 2 or a eq 1 or c eq 3 or b eq 2", "hassubset((3, 1, 2, 3), (1, 1))", "n in (1.5, 1.0, 1.5, 2e0)"]
+                      "a eq 1 or b eq 2 or a eq 1 or c eq 3 or b eq 2", "hassubset((3, 1, 2, 3), (1, 1))", "n in (1.5, 1.0, 1.5, 2e0)",
+                      # several range variables in scope at once, sibling lambdas re-using a name, a re-bound name
+                      "items/any(x: x/tags/any(t: t eq 'a') and x/tags/any(t: t eq 'b'))",
+                      "a/any(x: x/b/any(y: y/c/all(z: z eq 1)) or x/d/any(y: y eq 2) or x/e/all(z: z eq 3))",
+                      "a/any(x: x/b/any(x: x eq 1) and x/c eq 2)", "a/any(p: p/b/all(q: q/c/any(r: r eq p/d) and q/e/any(r: r eq 1)))"]
     # every built-in with one argument too many / too few: importing a back-end must not change the function table
     for fn, n in (("round", 1), ("floor", 1), ("ceiling", 1), ("substring", 3), ("trim", 1), ("concat", 2), ("contains", 2), ("year", 1),
                   ("indexof", 2), ("tolower", 1), ("toupper", 1), ("now", 0), ("date", 1), ("time", 1), ("second", 1), ("startswith", 2),
